@@ -18,7 +18,6 @@ package main
 //     and reference semantics evaluated on the same programs).
 
 import (
-	"sync"
 	"crypto/sha1"
 	"encoding/json"
 	"flag"
@@ -32,6 +31,7 @@ import (
 	"regexp"
 	"sort"
 	"strings"
+	"sync"
 
 	"github.com/antonmedv/expr"
 	"github.com/antonmedv/expr/compiler"
